@@ -30,7 +30,12 @@ class DictCursor:
         from . import _yield
 
         await _yield()
-        rowcount, rows, lastrowid = self._conn._bc.execute(sql, args)
+        bc = self._conn._bc
+        aexecute = getattr(bc, 'aexecute', None)   # optional: a backend that suspends inside a statement (vf.txmc)
+        if aexecute is not None:
+            rowcount, rows, lastrowid = await aexecute(sql, args)
+        else:
+            rowcount, rows, lastrowid = bc.execute(sql, args)
         self.rowcount = rowcount
         self._rows = rows
         self._pos = 0
@@ -49,7 +54,11 @@ class DictCursor:
         if m:
             await _yield()
             prefix, values, postfix = m.group(1), m.group(2).rstrip(), m.group(3) or ''
-            rowcount, lastrowid = self._conn._bc.execute_bulk_insert(prefix, values, postfix, args)
+            abulk = getattr(self._conn._bc, 'aexecute_bulk_insert', None)
+            if abulk is not None:
+                rowcount, lastrowid = await abulk(prefix, values, postfix, args)
+            else:
+                rowcount, lastrowid = self._conn._bc.execute_bulk_insert(prefix, values, postfix, args)
             self.rowcount = rowcount
             self.lastrowid = lastrowid
             return rowcount
